@@ -35,12 +35,101 @@ type sStmt struct {
 
 func sTokName(k int) string { return "T" + strconv.Itoa(k) }
 
+// c03Form: the expression a probe reads the name through (one form per
+// program, chosen by the harness). Every form evaluates to the value of the
+// name; what differs is the syntax the symbol table has to look into and the
+// scope the name occurrence belongs to.
+//
+//	0  x
+//	1  (0 if 0 else x)                  else-branch of a conditional
+//	2  (x if 1 else 0)                  body of a conditional
+//	3  (lambda: x)()                    lambda scope: x is free in it
+//	4  [x for _i in (0,)][0]            comprehension scope: element expression
+//	5  [_i for _i in (x,)][0]           outermost iterable: evaluated in the enclosing scope
+//	6  (lambda _a=x: _a)()              default: evaluated in the enclosing scope at definition
+//	7  {'k': x for _i in (0,)}['k']     dict comprehension scope
+//	8  (0 or x)                         boolean operator
+//	9  (lambda: (lambda: x)())()        free variable passed through two scopes
+//	10 [x for _i in (0,) if 1][0]       comprehension with a condition
+//	11 (x,)[0]   12 [x][0]   13 {'k': x}['k']          displays
+//	14 (lambda _a: _a)(x)   15 (..)(_a=x)   16 (..)(*(x,))    call argument positions
+//	17 (x if (1 if 1 else 0) else 0)    nested conditional
+var c03Form int
+
+const c03NForms = 18
+
+// c03FormNested: the name occurrence of this form lies in a function scope nested in the probe's scope
+func c03FormNested(form int) bool {
+	switch form {
+	case 3, 4, 7, 9, 10:
+		return true
+	}
+	return false
+}
+
+func c03ProbeExpr(name string) ast.Expr {
+	x := c02Name(name)
+	num := func(k int64) ast.Expr { return &ast.Num{N: py.Int(k)} }
+	idx0 := func(e ast.Expr) ast.Expr {
+		return &ast.Subscript{Value: e, Slice: &ast.Index{Value: num(0)}, Ctx: ast.Load}
+	}
+	gen := func(iter ast.Expr, ifs ...ast.Expr) []ast.Comprehension {
+		return []ast.Comprehension{{Target: &ast.Name{Id: "_i", Ctx: ast.Store}, Iter: &ast.Tuple{Elts: []ast.Expr{iter}, Ctx: ast.Load}, Ifs: ifs}}
+	}
+	switch c03Form {
+	case 1:
+		return &ast.IfExp{Test: num(0), Body: num(0), Orelse: x}
+	case 2:
+		return &ast.IfExp{Test: num(1), Body: x, Orelse: num(0)}
+	case 3:
+		return &ast.Call{Func: &ast.Lambda{Args: &ast.Arguments{}, Body: x}}
+	case 4:
+		return idx0(&ast.ListComp{Elt: x, Generators: gen(num(0))})
+	case 5:
+		return idx0(&ast.ListComp{Elt: c02Name("_i"), Generators: gen(x)})
+	case 6:
+		return &ast.Call{Func: &ast.Lambda{Args: &ast.Arguments{Args: []*ast.Arg{{Arg: "_a"}}, Defaults: []ast.Expr{x}}, Body: c02Name("_a")}}
+	case 7:
+		k := &ast.Str{S: "k"} // gpython's dicts take string keys only
+		return &ast.Subscript{Value: &ast.DictComp{Key: k, Value: x, Generators: gen(num(0))}, Slice: &ast.Index{Value: k}, Ctx: ast.Load}
+	case 8:
+		return &ast.BoolOp{Op: ast.Or, Values: []ast.Expr{num(0), x}}
+	case 9:
+		inner := &ast.Call{Func: &ast.Lambda{Args: &ast.Arguments{}, Body: x}}
+		return &ast.Call{Func: &ast.Lambda{Args: &ast.Arguments{}, Body: inner}}
+	case 10:
+		return idx0(&ast.ListComp{Elt: x, Generators: gen(num(0), num(1))})
+	case 11:
+		return idx0(&ast.Tuple{Elts: []ast.Expr{x}, Ctx: ast.Load})
+	case 12:
+		return idx0(&ast.List{Elts: []ast.Expr{x}, Ctx: ast.Load})
+	case 13:
+		k := &ast.Str{S: "k"}
+		return &ast.Subscript{Value: &ast.Dict{Keys: []ast.Expr{k}, Values: []ast.Expr{x}}, Slice: &ast.Index{Value: k}, Ctx: ast.Load}
+	case 14, 15, 16:
+		ident := &ast.Lambda{Args: &ast.Arguments{Args: []*ast.Arg{{Arg: "_a"}}}, Body: c02Name("_a")}
+		switch c03Form {
+		case 14:
+			return &ast.Call{Func: ident, Args: []ast.Expr{x}}
+		case 15:
+			return &ast.Call{Func: ident, Keywords: []*ast.Keyword{{Arg: "_a", Value: x}}}
+		default:
+			return &ast.Call{Func: ident, Starargs: &ast.Tuple{Elts: []ast.Expr{x}, Ctx: ast.Load}}
+		}
+	case 17:
+		// x[...] is not available on tokens; the name as the subscripted index instead: (0, 1)[0:x] is not either.
+		// a conditional as the test of a conditional: (x if (1 if 1 else 0) else 0)
+		return &ast.IfExp{Test: &ast.IfExp{Test: num(1), Body: num(1), Orelse: num(0)}, Body: x, Orelse: num(0)}
+	}
+	return x
+}
+
 func (s *sStmt) toAst() ast.Stmt {
 	switch s.kind {
 	case "assign":
 		return &ast.Assign{Targets: []ast.Expr{&ast.Name{Id: ast.Identifier(s.name), Ctx: ast.Store}}, Value: c02Name(sTokName(s.val))}
 	case "probe":
-		return &ast.ExprStmt{Value: &ast.Call{Func: c02Name("p"), Args: []ast.Expr{c02Name(s.name)}}}
+		return &ast.ExprStmt{Value: &ast.Call{Func: c02Name("p"), Args: []ast.Expr{c03ProbeExpr(s.name)}}}
 	case "global":
 		return &ast.Global{Names: []ast.Identifier{ast.Identifier(s.name)}}
 	case "nonlocal":
@@ -269,7 +358,14 @@ func (r *sRef) run(env *sEnv, body []*sStmt) {
 			c := r.cellFor(env, s.name, true)
 			c.val, c.bound = "t"+strconv.Itoa(s.val), true
 		case "probe":
-			c := r.cellFor(env, s.name, false)
+			penv := env
+			if c03FormNested(c03Form) {
+				// the occurrence lies in a lambda / comprehension: a function scope of its own,
+				// nested in this one, that neither binds nor declares the name
+				lsc := sAnalyze(&sStmt{kind: "def", name: "<lambda>"}, nil, env.scope)
+				penv = &sEnv{scope: lsc, vars: map[string]*sCell{}, parent: env}
+			}
+			c := r.cellFor(penv, s.name, false)
 			if !c.bound {
 				r.err = "NameError"
 				return
@@ -390,11 +486,12 @@ func c03CheckWith(prog []*sStmt, ntok int, builtins py.StringDict) {
 	}
 }
 
-//verif:property C03
+//verif:property C03 C01
 //verif:runinit github.com/go-python/gpython/vm.init#1 github.com/go-python/gpython/vm.init#2
 //verif:expect ran
 //verif:maxpaths 20000 200000
 func VerifC03Closures() {
+	c03Form = verifChoice("form", c03NForms)
 	A := func(n string, v int) *sStmt { return &sStmt{kind: "assign", name: n, val: v} }
 	P := func(n string) *sStmt { return &sStmt{kind: "probe", name: n} }
 	// g
@@ -447,6 +544,7 @@ func VerifC03Closures() {
 //verif:expect ran
 //verif:maxpaths 20000 200000
 func VerifC03Siblings() {
+	c03Form = verifChoice("form", c03NForms)
 	A := func(n string, v int) *sStmt { return &sStmt{kind: "assign", name: n, val: v} }
 	P := func(n string) *sStmt { return &sStmt{kind: "probe", name: n} }
 	var abody []*sStmt
@@ -486,6 +584,7 @@ func VerifC03Siblings() {
 //verif:runinit github.com/go-python/gpython/vm.init#1 github.com/go-python/gpython/vm.init#2
 //verif:expect ran
 func VerifC03CapturedParams() {
+	c03Form = verifChoice("form", c03NForms)
 	P := func(n string) *sStmt { return &sStmt{kind: "probe", name: n} }
 	npos := verifChoice("npos", 3)
 	nkw := verifChoice("nkw", 3)
@@ -526,6 +625,7 @@ func VerifC03CapturedParams() {
 // declare x global / bind x in its own namespace) with a method m using x.
 // Exported for the harness in stdlib/builtin, which supplies the real __build_class__.
 func VerifC03ClassProgram(builtins py.StringDict) {
+	c03Form = verifChoice("form", c03NForms)
 	A := func(n string, v int) *sStmt { return &sStmt{kind: "assign", name: n, val: v} }
 	P := func(n string) *sStmt { return &sStmt{kind: "probe", name: n} }
 	var mbody []*sStmt
